@@ -402,12 +402,17 @@ def run(ctx: Context) -> None:
                 texts = {t for t, pol in g if pol}
                 neg = {t for t, pol in g if not pol}
                 kind_ok = any(('.kind in' in t and all(k in t.split('.kind in')[1] for k in 'iu')) or 'numpy.integer' in t for t in texts)
-                no_fill = any(t == f"'_FillValue' in {dp}.encoding" for t in neg) and any(t == f"'missing_value' in {dp}.encoding" for t in neg)
+                # "no fill value" is: the key is absent from the encoding *or holds None* (utils.disable_default_fill_value records "none" that way).
+                # The presence of the key alone says nothing: the refusal must stand under `encoding.get(k) is None`.
+                def _absent_or_none(key):
+                    return (any(t in (f"{dp}.encoding.get('{key}') is None", f"{dp}.encoding.get('{key}', None) is None") for t in texts)
+                            or any(t in (f"{dp}.encoding.get('{key}') is not None", f"{dp}.encoding.get('{key}', None) is not None") for t in neg))
+                no_fill = _absent_or_none('_FillValue') and _absent_or_none('missing_value')
                 if kind_ok and no_fill:
                     packed = n
         third = sorted(rets, key=lambda r: r.lineno)[-1] if rets else None
         ctx.check('R08.6', packed is not None and third is not None and packed.lineno < third.lineno,
-                  "a variable packed into an integer type on disk without _FillValue or missing_value has no usable fill value, although it is a float variable in memory: "
+                  "a variable packed into an integer type on disk whose encoding has no _FillValue / missing_value (absent, or None) has no usable fill value, although it is a float variable in memory: "
                   "the nan would be written through the integer encoding and come back as a made-up number", ff, packed or ff.node,
                   construct=f"refusal of packed variables without a fill value: {'line ' + str(packed.lineno) if packed is not None else 'absent'}")
         pr = [c for c in calls_in(ff) if (callee(ctx, ff, c) or '').endswith('maybe_promote')]
@@ -430,7 +435,9 @@ from ..variants import V  # noqa: E402
 _M = 'src/emsarray/masking.py'
 _U = 'src/emsarray/conventions/ugrid.py'
 VARIANTS = [
-    V('C08', 'packed-without-fill-gets-nan', _M, "        and numpy.dtype(encoded_dtype).kind in 'iub'\n        and '_FillValue' not in data_array.encoding\n", "        and numpy.dtype(encoded_dtype).kind in 'iub'\n        and '_FillValue' in data_array.encoding\n", 'R08.6'),
+    V('C08', 'packed-without-fill-gets-nan', _M, "        and numpy.dtype(encoded_dtype).kind in 'iub'\n        and data_array.encoding.get('_FillValue') is None\n", "        and numpy.dtype(encoded_dtype).kind in 'iub'\n        and data_array.encoding.get('_FillValue') is not None\n", 'R08.6'),
+    V('C08', 'packed-none-marker-counts-as-fill', _M, "        and data_array.encoding.get('_FillValue') is None\n        and data_array.encoding.get('missing_value') is None\n", "        and '_FillValue' not in data_array.encoding\n        and 'missing_value' not in data_array.encoding\n", 'R08.6'),
+    V('C08', 'benign-packed-none-default-spelled', _M, "        and data_array.encoding.get('_FillValue') is None\n", "        and data_array.encoding.get('_FillValue', None) is None\n", None),
     V('C08', 'packed-check-removed', _M, "        raise ValueError(\"No appropriate fill value found\")\n\n    promoted_dtype", "        pass\n\n    promoted_dtype", 'R08.6'),
     V('C08', 'mask-applied-by-position', 'src/emsarray/masking.py', "condition = mask_data_array.reset_coords(drop=True)", "condition = mask_data_array.values", 'R08.2'),
     V('C08', 'benign-mask-as-variable', 'src/emsarray/masking.py', "condition = mask_data_array.reset_coords(drop=True)", "condition = mask_data_array.variable", None),
